@@ -58,11 +58,11 @@ PROPS = {
     "C05": P(GS + ["Vinterp2d", "Vinterp3d"], SOLVER2 + SOLVER3 + VINTERP, "proof",
              "Theorems over R on the generated kernels: slowness- and length-homogeneity of t_ana, t_anad, delta and the "
              "interpolators; bit-for-bit power-of-two and 1e-9 general scaling of the whole pipeline are examined on the implementation.",
-             RULE_SOLVE + "; scale factors 2^k (k=-9..9) and 10^u (u in [-3,3]), slowness or length", props="props/C05.v"),
+             RULE_SOLVE + "; scale factors 2^k (k=-9..9) and 10^u (u in [-3,3]), slowness or length", props="props/C05.v", api_corr="api"),
     "C06": P(GS + ["Interp2d", "Interp3d", "Vinterp2d", "Vinterp3d"], SOLVER2 + SOLVER3 + INTERP + VINTERP, "proof",
              "Theorems: the kernels receive only (coordinate - origin) and the axes origin + k*spacing, the interpolators are "
              "translation invariant over R; bit-for-bit grids for representable translations are examined on the implementation.",
-             RULE_SOLVE + "; origins incl. 1e6-scale, single and list calls", props="props/C06.v", oracle_n=(50, 400)),
+             RULE_SOLVE + "; origins incl. 1e6-scale, single and list calls", props="props/C06.v", oracle_n=(50, 400), api_corr="api"),
     "C07": P(GS, SOLVER2 + SOLVER3, "proof",
              "Theorems (all shapes, every numeric instance incl. binary64 with NaN): one sweep call changes one node and only "
              "downwards; a full sweep pass lowers every node or leaves it; nsweep is the iteration count of one pass function; "
@@ -85,7 +85,7 @@ PROPS = {
              "the hull, buffer index below max_step, RuntimeError iff the budget is exhausted, ValueError iff the end point is outside. "
              "Monotone time, straightness and 'never raises when homogeneous' are examined on the implementation.",
              "models homogeneous/layered/gradient/smoothed log-normal x end points interior/node/face/edge/line/source/near-source x "
-             "step sizes x max_step", props="props/C10.v", oracle_n=(50, 400)),
+             "step sizes x max_step", props="props/C10.v", oracle_n=(50, 400), api_corr="api"),
     "C11": P(GS, SOLVER2 + SOLVER3, "proof",
              "Theorems: the traveltime output of sweep/sweep2d/sweep3d does not depend on the gradient flag or the sign array (bit-level, "
              "source semantics); gradient vectors are g/|g| or 0. Unit norm, zero at the source, direction and the compiled build's "
@@ -117,7 +117,7 @@ PROPS = {
              "invariance; SciPy is a section variable with stated hypotheses. Values/range/constants/monotone and solve-after-edit are "
              "examined on the implementation.",
              "models x new shapes (up/down, per-axis) x linear/nearest x scalar/per-axis sigma x unit changes", props="props/C16.v",
-             api_corr="meta", corr_n=(20, 120)),
+             api_corr="meta", api_n=(20, 120)),
     "C17": P([], [], "other",
              "Frame property of a functional model is by construction; the content is observed: random API histories on shared, copied "
              "and deep-copied objects with inputs as list/tuple/F-order/strided/float32, interleaved 2D/3D use and raising calls; "
@@ -137,7 +137,7 @@ PROPS = {
              "Theorems on the hand model of the mesh index arithmetic: point index bijection, coordinates, data order, cell corner "
              "sets, ray connectivity; the implementation is run with a stand-in meshio module and decoded point by point.",
              "non-cubic shapes, unequal spacings, origins, 0..2 traveltime grids with/without gradients, 1..3 rays", props="props/C20.v",
-             api_corr="mesh", corr_n=(12, 60)),
+             api_corr="mesh", api_n=(12, 60)),
 }
 
 
